@@ -98,7 +98,7 @@ try:
         lines = [l for l in r.stdout.splitlines() if not l.startswith('    ') and ('violated' in l or 'undecided' in l)]
         checks[p] = {'exit': r.returncode, 'reports': [l[:500] for l in lines[:4]]}
 finally:
-    subprocess.run(['git', 'checkout', '--', '.'], cwd='/repo')
+    subprocess.run('git checkout -q -- . && git clean -fdq', cwd='/repo', shell=True)
 res['checks'] = checks
 caught = any(v['exit'] == 1 for v in checks.values())
 res['caught'] = caught
